@@ -1003,36 +1003,36 @@ Section Lin2.
 End Lin2.
 
 (* ---- the constructor ---- *)
-Lemma ctor_without_out_l a ins user ext gs : count_ell (wrap a) <= 1 -> existsb is_mask (wrap a) = false ->
-  gathers ins (wrap a) ext = Ok gs ->
-  Index_ctor a ins None user ext = Ok (mkIop (wrap a) ins (map g_out gs) (infer_unique (wrap a) user)).
+Lemma ctor_without_out_l a ins user gs : count_ell (wrap a) <= 1 -> existsb is_mask (wrap a) = false ->
+  gathers ins (wrap a) = Ok gs ->
+  Index_ctor a ins None user = Ok (mkIop (wrap a) ins (map g_out gs) (infer_unique (wrap a) user)).
 Proof.
   intros Hc Hm Hg. unfold Index_ctor. destruct (Nat.ltb_spec 1 (count_ell (wrap a))); [lia|].
   now rewrite Hm, Hg.
 Qed.
-Lemma ctor_with_out_l a ins o user ext : count_ell (wrap a) <= 1 ->
-  Index_ctor a ins (Some o) user ext = Ok (mkIop (wrap a) ins o (infer_unique (wrap a) user)).
+Lemma ctor_with_out_l a ins o user : count_ell (wrap a) <= 1 ->
+  Index_ctor a ins (Some o) user = Ok (mkIop (wrap a) ins o (infer_unique (wrap a) user)).
 Proof. intros Hc. unfold Index_ctor. now destruct (Nat.ltb_spec 1 (count_ell (wrap a))); [lia|]. Qed.
-Lemma ctor_rejects_l a ins outs user ext :
+Lemma ctor_rejects_l a ins outs user :
   (1 < count_ell (wrap a) \/ (outs = None /\ existsb is_mask (wrap a) = true)) ->
-  Index_ctor a ins outs user ext = Err ValueError.
+  Index_ctor a ins outs user = Err ValueError.
 Proof.
   unfold Index_ctor. intros [H|[-> H]].
   - now destruct (Nat.ltb_spec 1 (count_ell (wrap a))); [|lia].
   - destruct (1 <? count_ell (wrap a)); [reflexivity|]. now rewrite H.
 Qed.
-Lemma ctor_ok_inv_l a ins outs user ext o : Index_ctor a ins outs user ext = Ok o ->
+Lemma ctor_ok_inv_l a ins outs user o : Index_ctor a ins outs user = Ok o ->
   count_ell (wrap a) <= 1 /\ i_ix o = wrap a /\ i_in o = ins /\ i_unique o = infer_unique (wrap a) user /\
   match outs with
   | Some s => i_out o = s
-  | None => existsb is_mask (wrap a) = false /\ exists gs, gathers ins (wrap a) ext = Ok gs /\ i_out o = map g_out gs
+  | None => existsb is_mask (wrap a) = false /\ exists gs, gathers ins (wrap a) = Ok gs /\ i_out o = map g_out gs
   end.
 Proof.
   unfold Index_ctor. destruct (Nat.ltb_spec 1 (count_ell (wrap a))); [discriminate|].
   destruct outs as [s|].
   - intros H0; inversion H0; subst; cbn. repeat split; lia.
   - destruct (existsb is_mask (wrap a)); [discriminate|].
-    destruct (gathers ins (wrap a) ext) as [gs|] eqn:E; [|discriminate].
+    destruct (gathers ins (wrap a)) as [gs|] eqn:E; [|discriminate].
     intros H0; inversion H0; subst; cbn. repeat split; try lia. now exists gs.
 Qed.
 
@@ -1074,7 +1074,7 @@ Proof.
   - vm_compute. discriminate.
 Qed.
 Lemma pack_is_index_l msh bits ins :
-  Pack_gathers (mkPop msh bits ins) = gathers ins (wrap (ASingle (XMask msh bits))) [].
+  Pack_gathers (mkPop msh bits ins) = gathers ins (wrap (ASingle (XMask msh bits))).
 Proof. reflexivity. Qed.
 Lemma pack_nodup_l msh bits sh g : index_leaf sh [XMask msh bits] = Ok (Some g) -> NoDup (g_sel g).
 Proof. apply unique_inference_sound_l. reflexivity. Qed.
@@ -1364,3 +1364,361 @@ Section Lin3.
     apply (PtP_rule_sound_l K k0 k1 kadd kmul ksub kopp Kth); assumption.
   Qed.
 End Lin3.
+
+(* ============================================================================================ *)
+(* Part 7: two or more array entries (index_adv): positions in range, and pairwise distinct when no
+   integer array takes part *)
+
+Lemma otl_nth_error_flat {A} (l : list A) : flat_map (fun k => otl (nth_error l k)) (seq 0 (length l)) = l.
+Proof.
+  induction l as [|a l IH]; [reflexivity|].
+  cbn [length seq flat_map nth_error otl app]. f_equal.
+  rewrite <- seq_shift, flat_map_concat_map, map_map, <- flat_map_concat_map. exact IH.
+Qed.
+Lemma Forall_takewhile {A} (P : A -> Prop) f l : Forall P l -> Forall P (takewhile f l).
+Proof. induction 1 as [|x l Hx _ IH]; cbn; [constructor|]. destruct (f x); [now constructor|constructor]. Qed.
+Lemma Forall_dropwhile {A} (P : A -> Prop) f l : Forall P l -> Forall P (dropwhile f l).
+Proof. induction 1 as [|x l Hx Hl IH]; cbn; [constructor|]. destruct (f x); [assumption|now constructor]. Qed.
+Lemma takewhile_dropwhile {A} (f : A -> bool) l : takewhile f l ++ dropwhile f l = l.
+Proof. induction l as [|x l IH]; cbn; [reflexivity|]. destruct (f x); cbn; [now rewrite IH|reflexivity]. Qed.
+Lemma prod_app a b : prod (a ++ b) = prod a * prod b.
+Proof. unfold prod. induction a as [|x a IH]; cbn [app fold_right]; [lia|rewrite IH; lia]. Qed.
+
+Lemma bc_data_in B a x : In x (bc_data B a) -> In x (a_coords a).
+Proof.
+  unfold bc_data. intros H. apply in_flat_map in H as [p [_ H]].
+  destruct (nth_error (a_coords a) p) as [c|] eqn:E; cbn in H; [|contradiction].
+  destruct H as [<-|[]]. eapply nth_error_In; eassumption.
+Qed.
+Lemma sub_k_in B k a x : In x (sub_k B k a) -> In x (a_coords a).
+Proof.
+  unfold sub_k. destruct (ax_adv a); [|trivial].
+  destruct (nth_error (bc_data B a) k) as [c|] eqn:E; cbn; [|contradiction].
+  intros [<-|[]]. eapply bc_data_in, nth_error_In; eassumption.
+Qed.
+Lemma sub_k_nodup B k a : (ax_adv a = false -> NoDup (a_coords a)) -> NoDup (sub_k B k a).
+Proof.
+  unfold sub_k. destruct (ax_adv a); [|auto]. intros _.
+  destruct (nth_error (bc_data B a) k); cbn; repeat constructor. intros [].
+Qed.
+Lemma sub_k_inb B k axs : Forall ax_inb axs -> inb (map a_dim axs) (map (sub_k B k) axs).
+Proof.
+  induction 1 as [|a axs Ha _ IH]; cbn; constructor; [|exact IH].
+  unfold ax_inb in Ha. rewrite Forall_forall in *. intros x Hx. apply Ha. eapply sub_k_in; eassumption.
+Qed.
+
+Lemma front_sel_lt B axs : Forall ax_inb axs -> Forall (fun q => q < prod (map a_dim axs)) (front_sel B axs).
+Proof.
+  intros H. unfold front_sel. rewrite Forall_forall. intros q Hq.
+  apply in_flat_map in Hq as [k [_ Hq]].
+  assert (G := outer_lt _ _ (sub_k_inb B k axs H)). rewrite Forall_forall in G. now apply G.
+Qed.
+
+(* the multiplicity of a flat position is bounded by the multiplicity of ONE of its coordinates, when
+   the other axes select distinct coordinates *)
+Lemma prodcount_key d1 : forall n d2 x, exists d, forall c1 c c2, length c1 = length d1 ->
+  Forall (fun c => NoDup c) c1 -> Forall (fun c => NoDup c) c2 ->
+  prodcount (d1 ++ n :: d2) (c1 ++ c :: c2) x <= cnt c d.
+Proof.
+  induction d1 as [|m d1 IH]; intros n d2 x.
+  - exists (x / prod d2). intros c1 c c2 Hl _ H2. destruct c1; [|discriminate]. cbn [app prodcount].
+    assert (G := prodcount_le1 d2 c2 (x mod prod d2) H2). nia.
+  - destruct (IH n d2 (x mod prod (d1 ++ n :: d2))) as [d Hd]. exists d.
+    intros c1 c c2 Hl H1 H2. destruct c1 as [|c0 c1]; [discriminate|]. cbn [app prodcount].
+    inversion H1; subst. injection Hl as Hl.
+    assert (G := Hd c1 c c2 Hl H4 H2). assert (G0 := nodup_cnt_le1 c0 (x / prod (d1 ++ n :: d2)) H3). nia.
+Qed.
+
+Lemma sumn_le {A} (f g : A -> nat) l : (forall x, In x l -> f x <= g x) -> sumn (map f l) <= sumn (map g l).
+Proof.
+  induction l as [|a l IH]; intros H; cbn; [lia|]. fold (sumn (map f l)) (sumn (map g l)).
+  assert (f a <= g a) by (apply H; now left). assert (sumn (map f l) <= sumn (map g l)) by (apply IH; intros; apply H; now right). lia.
+Qed.
+
+(* the broadcast-first enumeration never repeats a position when the basic axes select distinct
+   coordinates and ONE advanced axis carries pairwise distinct values over the whole of B *)
+Lemma front_nodup B axs : Forall ax_inb axs ->
+  (forall a, In a axs -> ax_adv a = false -> NoDup (a_coords a)) ->
+  (prod B <= 1 \/ exists a, In a axs /\ ax_adv a = true /\ NoDup (a_coords a) /\
+                          bc_data B a = a_coords a /\ length (a_coords a) = prod B) ->
+  NoDup (front_sel B axs).
+Proof.
+  intros Hinb Hbasic Hkey.
+  assert (Hnd : forall k, Forall (fun c => NoDup c) (map (sub_k B k) axs)).
+  { intros k. rewrite Forall_forall. intros c Hc. apply in_map_iff in Hc as [a [<- Ha]].
+    apply sub_k_nodup. auto. }
+  destruct Hkey as [Hsmall|(a & Ha & Hadv & Hnda & Hbc & Hlen)].
+  - unfold front_sel. destruct (prod B) as [|[|n]]; [constructor| |lia].
+    cbn [seq flat_map]. rewrite app_nil_r. apply NoDup_outer; [now apply sub_k_inb|apply Hnd].
+  - apply cnt_le1_nodup. intros x. unfold front_sel. rewrite cnt_flat_map.
+    apply in_split in Ha as (pre & post & ->).
+    destruct (prodcount_key (map a_dim pre) (a_dim a) (map a_dim post) x) as [d Hd].
+    eapply Nat.le_trans.
+    + apply (sumn_le _ (fun k => cnt (otl (nth_error (a_coords a) k)) d)). intros k _.
+      rewrite cnt_outer by (now apply sub_k_inb).
+      rewrite !map_app. cbn [map]. specialize (Hnd k). rewrite map_app in Hnd. cbn [map] in Hnd.
+      apply Forall_app in Hnd as [Hn1 Hn2]. inversion Hn2; subst.
+      replace (otl (nth_error (a_coords a) k)) with (sub_k B k a).
+      2:{ unfold sub_k. now rewrite Hadv, Hbc. }
+      apply Hd; [now rewrite !map_length|assumption|assumption].
+    + rewrite <- Hlen. rewrite <- cnt_flat_map. rewrite otl_nth_error_flat. now apply nodup_cnt_le1.
+Qed.
+
+(* an index array of the broadcast shape itself is not changed by the broadcast *)
+Lemma map2_diag B : map2 (fun n m => if n =? m then seq 0 m else repeat 0 m) B B = map (fun n => seq 0 n) B.
+Proof. induction B as [|n B IH]; cbn; [reflexivity|]. now rewrite Nat.eqb_refl, IH. Qed.
+Lemma bc_data_same B a : a_out a = B -> length (a_coords a) = prod B -> bc_data B a = a_coords a.
+Proof.
+  intros Ho Hl. unfold bc_data. rewrite Ho, Nat.sub_diag. cbn [repeat app].
+  rewrite map2_diag, outer_full, <- Hl. apply otl_nth_error_flat.
+Qed.
+
+(* ---- tuples without integer array: ints, slices, Ellipsis, masks ---- *)
+Definition ax_m (a : axsel) : Prop :=
+  ax_ok a /\ length (a_coords a) = prod (a_out a) /\ length (a_out a) <= 1.
+
+Lemma full_ax_m n : ax_m (full_ax n).
+Proof. split; [apply full_ax_ok|]. cbn. rewrite seq_length. split; lia. Qed.
+Lemma resolve_entry_m dims e a dims' : is_basic_or_mask e = true ->
+  resolve_entry dims e = Ok (a, dims') -> ax_m a.
+Proof.
+  intros Hb H. split; [eapply resolve_entry_ok; eassumption|].
+  destruct e as [z|s1 s2 s3| |ash d|msh b]; cbn [resolve_entry] in H; try discriminate.
+  - destruct dims as [|n rest]; [discriminate|]. destruct (in_range n z); [|discriminate].
+    inversion H; subst; cbn. split; lia.
+  - destruct dims as [|n rest]; [discriminate|]. destruct (slice_coords n s1 s2 s3) as [cs|] eqn:E; [|discriminate].
+    inversion H; subst; cbn. split; lia.
+  - destruct ((length msh =? 0) || negb (length b =? prod msh)); [discriminate|].
+    destruct (sh_eqb (firstn (length msh) dims) msh); [|discriminate].
+    inversion H; subst; cbn. split; lia.
+Qed.
+Lemma resolve_m fill l : forallb is_basic_or_mask l = true ->
+  forall dims axs, resolve fill dims l = Ok axs -> Forall ax_m axs.
+Proof.
+  induction l as [|e l IH]; intros Hb dims axs; cbn [resolve].
+  - intros H; inversion H; subst. rewrite Forall_forall. intros a Ha.
+    apply in_map_iff in Ha as [n [<- _]]. apply full_ax_m.
+  - cbn [forallb] in Hb. apply andb_true_iff in Hb as [Hb1 Hb2].
+    assert (G : forall r, match resolve_entry dims e with
+               | Ok (a, dims') => match resolve fill dims' l with Ok r => Ok (a :: r) | Err e0 => Err e0 end
+               | Err e0 => Err e0 end = Ok r -> Forall ax_m r).
+    { intros r. destruct (resolve_entry dims e) as [[a dims']|] eqn:E; [|discriminate].
+      destruct (resolve fill dims' l) as [r'|] eqn:E'; [|discriminate].
+      intros H; inversion H; subst. constructor; [eapply resolve_entry_m; eassumption|eapply IH; eassumption]. }
+    destruct e; try exact (G axs).
+    destruct (resolve fill (skipn fill dims) l) as [r|] eqn:E; [|discriminate].
+    intros H; inversion H; subst. apply Forall_app. split; [|eapply IH; eassumption].
+    rewrite Forall_forall. intros a Ha. apply in_map_iff in Ha as [n [<- _]]. apply full_ax_m.
+Qed.
+
+(* broadcasting shapes of rank <= 1 (ints: (), masks: (count,)): the result has at most one element,
+   or is the shape of one of the operands *)
+Lemma bshape_small s t B : length s <= 1 -> length t <= 1 -> bshape s t = Some B ->
+  length B <= 1 /\ (prod B <= 1 \/ B = s \/ B = t).
+Proof.
+  intros Hs Ht. destruct s as [|x [|? ?]]; [| |cbn in Hs; lia]; (destruct t as [|y [|? ?]]; [| |cbn in Ht; lia]);
+    unfold bshape; cbn.
+  - intros H; inversion H; subst; cbn. split; [lia|]. left; lia.
+  - intros H; inversion H; subst; cbn. split; [lia|]. right; now right.
+  - intros H; inversion H; subst; cbn. split; [lia|]. right; now left.
+  - destruct (Nat.eqb_spec x y) as [->|Hne].
+    + intros H; inversion H; subst; cbn. split; [lia|]. right; now left.
+    + destruct (Nat.eqb_spec x 1) as [->|Hx].
+      * intros H; inversion H; subst; cbn. split; [lia|]. right; now right.
+      * destruct (Nat.eqb_spec y 1) as [->|Hy]; [|discriminate].
+        intros H; inversion H; subst; cbn. split; [lia|]. right; now left.
+Qed.
+Lemma bshapes_small l : forall B, Forall (fun s => length s <= 1) l -> bshapes l = Some B ->
+  length B <= 1 /\ (prod B <= 1 \/ In B l).
+Proof.
+  induction l as [|s l IH]; intros B Hl; cbn [bshapes].
+  - intros H; inversion H; subst; cbn. split; [lia|]. left; lia.
+  - inversion Hl as [|? ? Hs Hl']; subst. destruct (bshapes l) as [t|] eqn:E; [|discriminate]. intros H.
+    destruct (IH t Hl' eq_refl) as [Ht Hin].
+    destruct (bshape_small s t B Hs Ht H) as [HB [Hp|[->| ->]]].
+    + split; [assumption|now left].
+    + split; [assumption|]. right; now left.
+    + split; [assumption|]. destruct Hin as [Hp|Hin]; [now left|right; now right].
+Qed.
+
+Lemma ax_m_inb axs : Forall ax_m axs -> Forall ax_inb axs.
+Proof. apply Forall_impl. now intros a [[_ H] _]. Qed.
+Lemma ax_m_ok axs : Forall ax_m axs -> Forall ax_ok axs.
+Proof. apply Forall_impl. now intros a [H _]. Qed.
+
+Lemma front_nodup_m axs B : Forall ax_m axs -> adv_shape axs = Some B -> NoDup (front_sel B axs).
+Proof.
+  intros Hm HB. apply front_nodup.
+  - now apply ax_m_inb.
+  - intros a Ha _. rewrite Forall_forall in Hm. now destruct (Hm a Ha) as [[? _] _].
+  - unfold adv_shape in HB. apply bshapes_small in HB as [_ [Hp|Hin]].
+    + now left.
+    + right. apply in_map_iff in Hin as [a [Ho Ha]]. apply filter_In in Ha as [Ha Hadv].
+      rewrite Forall_forall in Hm. destruct (Hm a Ha) as [[Hnd _] [Hl _]].
+      exists a. repeat split; try assumption.
+      * apply bc_data_same; [assumption|now rewrite <- Ho].
+      * now rewrite <- Ho.
+    + rewrite Forall_forall. intros s Hs. apply in_map_iff in Hs as [a [<- Ha]].
+      apply filter_In in Ha as [Ha _]. rewrite Forall_forall in Hm. now destruct (Hm a Ha) as [_ [_ ?]].
+Qed.
+
+Lemma adv_gather_nodup adj axs g : Forall ax_m axs -> adv_gather adj axs = Ok g -> NoDup (g_sel g).
+Proof.
+  intros Hm. unfold adv_gather. destruct adj.
+  - set (pre := takewhile ax_basic axs). set (rest := dropwhile ax_basic axs).
+    set (blk := takewhile ax_adv rest). set (post := dropwhile ax_adv rest).
+    destruct (adv_shape blk) as [B|] eqn:EB; [|discriminate].
+    intros H; inversion H; subst; cbn [g_sel]. clear H.
+    assert (Hpre : Forall ax_m pre) by (now apply Forall_takewhile).
+    assert (Hrest : Forall ax_m rest) by (now apply Forall_dropwhile).
+    assert (Hblk : Forall ax_m blk) by (now apply Forall_takewhile).
+    assert (Hpost : Forall ax_m post) by (now apply Forall_dropwhile).
+    assert (Hmerged : ax_ok (mkAx (prod (map a_dim blk)) (front_sel B blk) B KArr)).
+    { split; cbn; [now apply front_nodup_m|apply front_sel_lt; now apply ax_m_inb]. }
+    assert (Hall : Forall ax_ok (pre ++ mkAx (prod (map a_dim blk)) (front_sel B blk) B KArr :: post)).
+    { apply Forall_app. split; [now apply ax_m_ok|]. constructor; [assumption|now apply ax_m_ok]. }
+    apply NoDup_outer; [apply inb_of_axs, ax_ok_inb, Hall|apply nodup_of_axs, Hall].
+  - destruct (adv_shape axs) as [B|] eqn:EB; [|discriminate].
+    intros H; inversion H; subst; cbn [g_sel]. now apply front_nodup_m.
+Qed.
+
+Lemma prod_merge pre blk post m : a_dim m = prod (map a_dim blk) ->
+  prod (map a_dim (pre ++ m :: post)) = prod (map a_dim (pre ++ blk ++ post)).
+Proof.
+  intros E. rewrite !map_app, !prod_app. cbn [map]. change (prod (a_dim m :: map a_dim post)) with (a_dim m * prod (map a_dim post)).
+  now rewrite E.
+Qed.
+Lemma adv_gather_lt adj axs g : Forall ax_inb axs -> adv_gather adj axs = Ok g ->
+  Forall (fun q => q < prod (map a_dim axs)) (g_sel g).
+Proof.
+  intros Hm. unfold adv_gather. destruct adj.
+  - set (pre := takewhile ax_basic axs). set (rest := dropwhile ax_basic axs).
+    set (blk := takewhile ax_adv rest). set (post := dropwhile ax_adv rest).
+    destruct (adv_shape blk) as [B|] eqn:EB; [|discriminate].
+    intros H; inversion H; subst; cbn [g_sel]. clear H.
+    assert (Hpre : Forall ax_inb pre) by (now apply Forall_takewhile).
+    assert (Hrest : Forall ax_inb rest) by (now apply Forall_dropwhile).
+    assert (Hblk : Forall ax_inb blk) by (now apply Forall_takewhile).
+    assert (Hpost : Forall ax_inb post) by (now apply Forall_dropwhile).
+    assert (Hall : Forall ax_inb (pre ++ mkAx (prod (map a_dim blk)) (front_sel B blk) B KArr :: post)).
+    { apply Forall_app. split; [assumption|]. constructor; [|assumption]. unfold ax_inb; cbn. now apply front_sel_lt. }
+    assert (G := outer_lt _ _ (inb_of_axs _ Hall)).
+    assert (E : axs = pre ++ blk ++ post).
+    { unfold pre, blk, post, rest. now rewrite !takewhile_dropwhile. }
+    clearbody pre rest blk post. subst axs.
+    rewrite (prod_merge pre blk post) in G by reflexivity. exact G.
+  - destruct (adv_shape axs) as [B|] eqn:EB; [|discriminate].
+    intros H; inversion H; subst; cbn [g_sel]. now apply front_sel_lt.
+Qed.
+
+(* the resolved axes tile the leaf: the product of the (merged) dimensions is the size of the leaf *)
+Lemma resolve_entry_prod dims e a dims' : resolve_entry dims e = Ok (a, dims') -> a_dim a * prod dims' = prod dims.
+Proof.
+  destruct e as [z|s1 s2 s3| |ash d|msh b]; cbn [resolve_entry].
+  - destruct dims as [|n rest]; [discriminate|]. destruct (in_range n z); [|discriminate].
+    intros H; inversion H; subst; reflexivity.
+  - destruct dims as [|n rest]; [discriminate|]. destruct (slice_coords n s1 s2 s3); [|discriminate].
+    intros H; inversion H; subst; reflexivity.
+  - discriminate.
+  - destruct dims as [|n rest]; [discriminate|]. destruct (negb (length d =? prod ash)); [discriminate|].
+    destruct (forallb (in_range n) d); [|discriminate]. intros H; inversion H; subst; reflexivity.
+  - destruct ((length msh =? 0) || negb (length b =? prod msh)); [discriminate|].
+    destruct (sh_eqb (firstn (length msh) dims) msh) eqn:E; [|discriminate].
+    intros H; inversion H; subst; cbn [a_dim]. apply sh_eqb_eq in E.
+    rewrite <- E at 1. rewrite <- prod_app. now rewrite firstn_skipn.
+Qed.
+Lemma resolve_prod fill l : forall dims axs, resolve fill dims l = Ok axs -> prod (map a_dim axs) = prod dims.
+Proof.
+  induction l as [|e l IH]; intros dims axs; cbn [resolve].
+  - intros H; inversion H; subst. now rewrite full_ax_dims.
+  - assert (G : forall r, match resolve_entry dims e with
+               | Ok (a, dims') => match resolve fill dims' l with Ok r => Ok (a :: r) | Err e0 => Err e0 end
+               | Err e0 => Err e0 end = Ok r -> prod (map a_dim r) = prod dims).
+    { intros r. destruct (resolve_entry dims e) as [[a dims']|] eqn:E; [|discriminate].
+      destruct (resolve fill dims' l) as [r'|] eqn:E'; [|discriminate].
+      intros H; inversion H; subst. cbn [map prod fold_right]. fold (prod (map a_dim r')).
+      rewrite (IH _ _ E'). eapply resolve_entry_prod; eassumption. }
+    destruct e; try exact (G axs).
+    destruct (resolve fill (skipn fill dims) l) as [r|] eqn:E; [|discriminate].
+    intros H; inversion H; subst. rewrite map_app, prod_app, full_ax_dims, (IH _ _ E), <- prod_app.
+    now rewrite firstn_skipn.
+Qed.
+
+(* ---- leaf_gather: every tuple (index_leaf for at most one array entry, index_adv beyond) ---- *)
+Lemma index_adv_nodup sh l g : forallb is_basic_or_mask l = true -> index_adv sh l = Ok g -> NoDup (g_sel g).
+Proof.
+  intros Hb. unfold index_adv. destruct (1 <? count_ell l); [discriminate|].
+  destruct (length sh <? consumed l); [discriminate|].
+  destruct (resolve (length sh - consumed l) sh l) as [axs|] eqn:E; [|discriminate].
+  apply adv_gather_nodup. eapply resolve_m; eassumption.
+Qed.
+Lemma index_adv_lt sh l g : index_adv sh l = Ok g -> Forall (fun q => q < prod sh) (g_sel g).
+Proof.
+  unfold index_adv. destruct (1 <? count_ell l); [discriminate|].
+  destruct (length sh <? consumed l); [discriminate|].
+  destruct (resolve (length sh - consumed l) sh l) as [axs|] eqn:E; [|discriminate].
+  intros H. rewrite <- (resolve_prod _ _ _ _ E). eapply adv_gather_lt; [|eassumption].
+  eapply resolve_inb; eassumption.
+Qed.
+Lemma index_leaf_lt sh l g : index_leaf sh l = Ok (Some g) -> Forall (fun q => q < prod sh) (g_sel g).
+Proof.
+  intros H. apply index_leaf_perm in H as [axs [Hr Hp]].
+  rewrite Forall_forall. intros q Hq. eapply Permutation_in in Hq; [|exact Hp].
+  rewrite <- (resolve_prod _ _ _ _ Hr).
+  assert (G := outer_lt _ _ (inb_of_axs _ (resolve_inb _ _ _ _ Hr))). rewrite Forall_forall in G. now apply G.
+Qed.
+
+Lemma leaf_gather_inv sh l g : leaf_gather sh l = Ok g ->
+  index_leaf sh l = Ok (Some g) \/ (index_leaf sh l = Ok None /\ index_adv sh l = Ok g).
+Proof.
+  unfold leaf_gather. destruct (index_leaf sh l) as [[g'|]|]; [|auto|discriminate].
+  intros H; inversion H; subst. now left.
+Qed.
+Lemma leaf_gather_in_range sh l g : leaf_gather sh l = Ok g -> Forall (fun q => q < prod sh) (g_sel g).
+Proof. intros H. apply leaf_gather_inv in H as [H|[_ H]]; [eapply index_leaf_lt; eassumption|eapply index_adv_lt; eassumption]. Qed.
+Lemma unique_inference_sound_all sh l g : infer_unique l None = true ->
+  leaf_gather sh l = Ok g -> NoDup (g_sel g).
+Proof.
+  intros Hu H. apply leaf_gather_inv in H as [H|[_ H]]; [eapply unique_inference_sound_l; eassumption|].
+  unfold infer_unique in Hu. destruct (forallb is_basic_or_mask l) eqn:Hb; [|discriminate].
+  eapply index_adv_nodup; eassumption.
+Qed.
+
+(* ---- the data-level theorems, instantiated on the gather of ANY index tuple ---- *)
+Section Lin4.
+  Variable K : Type.
+  Variables (k0 k1 : K) (kadd kmul ksub : K -> K -> K) (kopp : K -> K).
+  Hypothesis Kth : ring_theory k0 k1 kadd kmul ksub kopp (@eq K).
+
+  Lemma leaf_adjoint_l sh l g (x y : list K) : leaf_gather sh l = Ok g -> length x = prod sh ->
+    dot k0 kadd kmul (gather_data k0 (g_sel g) x) y = dot k0 kadd kmul x (scatter_add k0 kadd (prod sh) (g_sel g) y).
+  Proof. intros _ <-. apply (adjoint_l K k0 k1 kadd kmul ksub kopp Kth). Qed.
+
+  Lemma leaf_PPt_identity_iff_l sh l g : k1 <> k0 -> leaf_gather sh l = Ok g ->
+    ((forall y, length y = length (g_sel g) ->
+        gather_data k0 (g_sel g) (scatter_add k0 kadd (prod sh) (g_sel g) y) = y) <-> NoDup (g_sel g)).
+  Proof.
+    intros Hk H. apply (PPt_identity_iff_l K k0 k1 kadd kmul ksub kopp Kth Hk).
+    eapply leaf_gather_in_range; eassumption.
+  Qed.
+
+  (* IndexTransposeRule on an operator whose flag was INFERRED: P P^T really is the identity *)
+  Lemma leaf_PPt_inferred_l sh l g y : k1 <> k0 -> infer_unique l None = true -> leaf_gather sh l = Ok g ->
+    length y = length (g_sel g) ->
+    gather_data k0 (g_sel g) (scatter_add k0 kadd (prod sh) (g_sel g) y) = y.
+  Proof.
+    intros Hk Hu H. apply (leaf_PPt_identity_iff_l sh l g Hk H). eapply unique_inference_sound_all; eassumption.
+  Qed.
+End Lin4.
+
+
+(* the presence of a mask alone does not make a selection injective: a mask with one True entry next to an
+   integer array that repeats a value selects an element twice (the inference "unique as soon as there is a
+   mask" would be unsound; the code's inference answers False here) *)
+Lemma unique_if_any_mask_refuted_l : exists sh l g, existsb is_mask l = true /\ leaf_gather sh l = Ok g /\
+  ~ NoDup (g_sel g) /\ infer_unique l None = false.
+Proof.
+  exists [2; 3], [XMask [2] [true; false]; XArr [2] [1; 1]%Z], (mkG [2] [1; 1]).
+  repeat split; try reflexivity.
+  cbn. intros H. inversion H as [|? ? Hn _]; subst. apply Hn. now left.
+Qed.
